@@ -86,6 +86,16 @@ def corpus():
 
 
 def gen_bld(rng, hist, bad):
+    if not bad and rng.chance(0.01):
+        # more sources than a byte can index: ids around 255 / 256 / 257 must not be confused modulo 256
+        k = rng.choice([257, 258, 300])
+        ops = ["as:" + hx("s%d" % i) for i in range(k)]
+        for i in rng.choice([[256, 0, 255], [255, 257, 1], [k - 1, k - 257, 256]]):
+            ops.append("sc:%d:%s" % (i, o("c%d" % i)))
+        ops += ["ar:0:%d:1:2:%d:~:0" % (j, i) for j, i in enumerate([256, 0, 257, k - 1])]
+        ops += ["gs:256", "ig:256", "ig:0"]
+        bump(hist, "bld_many_sources")
+        return "bld.seq %s %s" % (o("f.js"), ";".join(ops))
     n = rng.range(1, 12) if rng.chance(0.7) else rng.range(1, 40)
     pool = SRC if rng.chance(0.7) else SRC[:4]
     srcs, names = [], []
